@@ -119,7 +119,7 @@ pub fn child_main(batch_path: &str, log_path: &str, start: usize, end: usize) ->
             }
             // ---- canaries: behaviour of the sandbox itself
             Parser::CanaryOk => { read = measured!(Phase::Ok); }
-            Parser::CanaryPanic => { read = measured!(phase_of(common::guard(|| -> anyhow::Result<()> { let v: Vec<u8> = vec![]; let i = std::hint::black_box(3); Ok(drop(v[i])) })).0); }
+            Parser::CanaryPanic => { read = measured!(phase_of(common::guard(|| -> anyhow::Result<()> { let v: Vec<u8> = vec![]; let i = std::hint::black_box(3); { std::hint::black_box(v[i]); Ok(()) } })).0); }
             Parser::CanaryAbort => { std::process::abort(); }
             Parser::CanaryStack => { let mut s = [0u8; 256]; let v = recurse(0, &mut s); read = measured!(if v == 1 { Phase::Ok } else { Phase::Err("?".into()) }); }
             Parser::CanaryAlloc => { read = measured!({ let v: Vec<u8> = vec![1; 96 << 20]; std::hint::black_box(&v); Phase::Ok }); }
